@@ -241,6 +241,8 @@ func H_C08_messages() {
 			if err := d.UnmarshalCBOR(b); err != nil {
 				return nil, err
 			}
+			vAssert("messages: the decoded payload is the encoded one (an empty payload is not a detached one)", d.Payload != nil && vRopeEq(d.Payload, m.Payload))
+			vAssert("messages: the decoded signature is the encoded one", vRopeEq(d.Signature, m.Signature))
 			return d.MarshalCBOR()
 		}
 	case 1:
@@ -263,6 +265,7 @@ func H_C08_messages() {
 			if err := d.UnmarshalCBOR(b); err != nil {
 				return nil, err
 			}
+			vAssert("messages: the decoded payload is the encoded one (an empty payload is not a detached one)", d.Payload != nil && vRopeEq(d.Payload, m.Payload))
 			return d.MarshalCBOR()
 		}
 	case 3:
